@@ -86,7 +86,7 @@ def make_proxy_plugin(idx: int, table: Dict[str, Any], log: List[Any]) -> type:
       on the connection, 'pass' otherwise.
     handle_upstream_chunk: 'pass' | 'drop' | 'mark' (records only).
     on_access_log: 'pass' | 'modify' | 'none'.
-    resolve_dns: 'pass' | ('ip', '10.0.0.9').
+    resolve_dns: 'pass' | ('ip', '10.0.0.9') | ('src', ('10.0.0.77', 0)).
     """
     from proxy.http.exception import HttpProtocolException, HttpRequestRejected
     from proxy.http.proxy import HttpProxyBasePlugin
@@ -134,6 +134,8 @@ def make_proxy_plugin(idx: int, table: Dict[str, Any], log: List[Any]) -> type:
         log.append((idx, 'resolve_dns', self.uid, host, port))
         if isinstance(a, tuple) and a[0] == 'ip':
             return a[1], None
+        if isinstance(a, tuple) and a[0] == 'src':
+            return None, a[1]           # no address, only the source address to connect from: ends the chain as well
         return None, None
 
     def handle_client_data(self: Any, raw: Any) -> Any:
